@@ -167,11 +167,28 @@ PROPS["C17"] = {
     "assumptions": RUN_ASSUME + ["'its generator does not run when the manifest is up to date' and 'results settled during that check are reused consistently' are decided by the dirty check (C03) and by want_file tolerating Done steps (unit sched: mono) -- here only: no reload and no second Work when phase 1 ran nothing"],
 }
 
+PROPS["C11"] = {
+    "units": ["eval"],
+    "probes": {"eval": ["eval::EvalString::evaluate_inner", "eval::EvalString::evaluate"]},
+    "level": "proof",
+    "assumptions": [
+        "DECIDED PART ONLY: the expansion function.  EvalString::evaluate(envs) == ev::eval(parts, envs), the spec function written from the statement (first env that binds the name wins -- even if the value is empty --, the value's own references continue in the FOLLOWING envs only, an unbound name expands to the empty string), for every part list and every env list (envs are arbitrary `dyn Env`s characterised by the uninterpreted `binds`); Vars::get_var is proved against its definition of binds",
+        "NOT decided here: which env lists the callers pass -- load::Loader::add_build's lookup closure (build block -> file scope for attributes bound on the build; rule binding -> [$in/$out, build block, file scope]), path evaluation with [build vars, file vars], the parser's eager top-level expansion (parse::Parser::read: evaluate(&[&self.vars]) then insert), include / subninja scope copying (load::parse_with_parser, Parser::inherit).  Seeded change C11-m2 (in add_build) is therefore NOT detected.  Defect D9 (an included file does not extend the including scope; reproduced by hand on the binary) lies in that undecided part and is reported in DESIGN.md, not by this check",
+        "R17: the external bound `T: AsRef<str>` is replaced by the local trait VxAsStr (as_ref -> vx_str) implemented for &str, String, Cow<str>; Cow's view is uninterpreted with one axiom for Cow::Borrowed; String::push_str / reserve carry trusted char-level specs; calc_evaluated_length (capacity hint) is a stub; the hash map behind Vars is a trusted stub",
+        "the Env impls for SmallMap<K, EvalString<..>> and SmallMap<&str, String> and BuildImplicitVars ($in/$out) are not under contract",
+    ],
+}
+
 NOT_APPLICABLE = {
     "C16": "OS-level effects (posix_spawn file actions, pipes, /bin/sh, waitpid, cross-thread output order) sit behind unsafe FFI and threads; no contract on n2's own code can express them (DESIGN.md §8)",
 }
 
 LEVEL_TEXT = {
+    "C11": {
+        "text": "Unbounded proof (Verus) on the real text of eval.rs EvalString::{evaluate_inner, evaluate} and the Env impl of Vars: the expanded string equals the spec function ev::eval taken from the statement -- literals are copied, a reference is replaced by the expansion of the value found in the first env binding the name, that value being expanded against the envs AFTER that one only, and by nothing if no env binds it -- for all part lists and all lists of arbitrary environments; the mutual recursion terminates (decreases on the env list).",
+        "note": "Only the expansion function is decided.  Which envs each caller passes (add_build's lookup order, eager top-level expansion, include/subninja scope) is not under contract; D9 (include does not extend the including scope) is a documented defect in that undecided part.",
+        "design_ref": "DESIGN.md §6 C11",
+    },
     "C17": {
         "text": "Unbounded proof (Verus) on the real text of run::build against a ghost protocol threaded through its calls (typestate preconditions on trusted stubs of load::read / Work::new / lookup / want_file / want_every_file / run): the manifest name is looked up first and, if the graph knows it, wanted and run before any other want; a second load::read happens only directly after that run returned true having executed commands, reads the same file, and is followed by a fresh Work; after any command ran, the old Work is never looked up, wanted or run again (targets, graph and dirtiness come from the new text only); ids used in want_file were resolved in the current generation (the manifest's own id excepted); after a run that returned false nothing is loaded, wanted or run and the result is Ok(None). Every path through build for every outcome of every call.",
         "note": "The protocol stubs are the trusted specification; load::read's body (that the manifest is interned first, C17-m2) and main.rs are not under contract.",
